@@ -87,6 +87,19 @@ W void w_joint_create(void* leaf, ulong additional, ulong n, ulong m)
     ::new (leaf) rec(1);
     UTRY auto p = allocate_joint<jt>(*static_cast<rec*>(leaf), joint_size(additional), n, m); (void)p; UCATCH
 }
+W void w_joint_alloc_seq(void* leaf, ulong additional, ulong sa, ulong sb, ulong sc, ulong al)
+{   // joint_allocator used directly: releasing a piece that is not the last allocation must leave the later piece alone
+    ::new (leaf) rec(1);
+    UTRY auto p = allocate_joint<jt>(*static_cast<rec*>(leaf), joint_size(additional), 0, 0);
+    joint_allocator ja(*p);
+    void* A = ja.allocate_node(sa, al);
+    void* B = ja.allocate_node(sb, al);
+    ja.deallocate_node(A, sa, al);
+    void* C = ja.allocate_node(sc, al);
+    verif_piece(0, B, sb);
+    verif_piece(1, C, sc);
+    UCATCH
+}
 W void w_joint_clone(void* leaf, ulong additional, ulong n, ulong m)
 {
     ::new (leaf) rec(1);
